@@ -77,7 +77,7 @@ def check_line(rec):
     if ret != rec['ret'] or n != len(rec['ret']):
       mism.append((feat('iter-nodes'), f'yielded nodes {ret} ({n}), spec {rec["ret"]}'))
   if op['name'] == 'get':
-    exp = rec['ret'] if isinstance(rec['ret'], dict) else {}
+    exp = {str(p[0]): p[1] for p in rec['ret']}
     if ret != exp:
       mism.append((feat('get-values'), f'get yielded {ret}, spec {exp}'))
   if rec['out'] == 'ok':
@@ -118,6 +118,8 @@ def record_random(rng, n):
     p = H.Projector()
     p.val(root)
     hp = p.heap
+    if hp[0]['k'] not in ('config', 'partial'):
+      continue
     op = {'name': rng.choice(['iter', 'get', 'set', 'replace', 'replace_shared']),
           'fn': rng.choice([1, 2, 3]), 'sub': rng.random() < 0.5,
           'bt': rng.choice(['buildable', 'config', 'partial']), 'slot': rng.randint(1, 3),
@@ -167,16 +169,27 @@ def validate_random(v, recs, wd):
 def main():
   v = common.Verdict(PROP, 'model_checking')
   quick = common.tier() == 'quick'
-  consts = dict(MaxObjs=3, MaxItems=2, NLeaves=1, NKeys=1, NSlots=2, NFns=3,
-                KindSet={'config', 'partial', 'list'}, TagChoices={0}, UnsetTagged=False, EmitOn=True)
-  if not quick:
-    consts.update(KindSet={'config', 'partial', 'list', 'dict', 'tuple'})
+  base = dict(MaxItems=2, NLeaves=1, NKeys=1, NSlots=2, NFns=3, TagChoices={0}, UnsetTagged=False,
+              EmitOn=True)
+  if quick:
+    runs = [dict(base, MaxObjs=2, KindSet={'config', 'partial', 'list', 'dict'}, OpMode='full'),
+            dict(base, MaxObjs=3, KindSet={'config', 'list'}, OpMode='lean')]
+  else:
+    runs = [dict(base, MaxObjs=3, KindSet={'config', 'partial', 'list', 'dict', 'tuple'}, OpMode='full')]
   with common.scratch() as wd:
     disp = common.Dispatcher(work, chunk=500)
-    res = common.run_tlc('MC_C15', common.cfg_text(consts, constraints=['GenPrune'],
+    res = None
+    for n, consts in enumerate(runs):
+      r = common.run_tlc('MC_C15', common.cfg_text(consts, constraints=['GenPrune'],
                                                    invariants=['Laws', 'Emit']),
-                         workdir=os.path.join(wd, 'mc'), on_json=disp)
-    common.require_tlc_ok(res, 'MC_C15')
+                         workdir=os.path.join(wd, f'mc{n}'), on_json=disp)
+      common.require_tlc_ok(r, 'MC_C15')
+      if res is None:
+        res = r
+      else:
+        res.distinct += r.distinct
+        res.generated += r.generated
+        res.lines += r.lines
     totals = {'lines': 0, 'nontrivial': 0}
     for stats, mism, sample in disp.results():
       for k in totals:
